@@ -52,6 +52,9 @@ type c14ChildSpec struct {
 	Dir     string
 }
 
+// the shard manager gets its own root below the node root: the two settings are independent
+func c14ShardRoot(root string) string { return filepath.Join(root, "shard-root") }
+
 func c14NodeConfig(root string, port int, servers []string, shardTimeout int) cluster.ClusterNodeConfig {
 	return cluster.ClusterNodeConfig{
 		RootDir:            root,
@@ -60,7 +63,7 @@ func c14NodeConfig(root string, port int, servers []string, shardTimeout int) cl
 		RpcTimeout:         5,
 		RpcRetries:         1,
 		Servers:            servers,
-		ShardManager:       cluster.ShardManagerConfig{RootDir: root, ShardTimeout: shardTimeout, MaxCacheSize: -1},
+		ShardManager:       cluster.ShardManagerConfig{RootDir: c14ShardRoot(root), ShardTimeout: shardTimeout, MaxCacheSize: -1},
 		MaxShardSize:       1 << 30,
 		MaxShardPointCount: 4,
 		MaxSearchLimit:     75,
@@ -164,7 +167,7 @@ func c14HashFile(path string) (int64, uint64, error) {
 
 func c14ObserveFiles(root string) ([]c14FileObs, error) {
 	var out []c14FileObs
-	base := filepath.Join(root, cluster.USERCOLSDIR)
+	base := filepath.Join(c14ShardRoot(root), cluster.USERCOLSDIR)
 	if _, err := os.Stat(base); err != nil {
 		return nil, nil
 	}
@@ -514,7 +517,7 @@ func c14RunScenario(rc *runCtx, r *rand.Rand, cl *c14Cluster, pl c14Plan, t *c14
 		raws = append(raws, rawFile{fmt.Sprintf("u%d-big", tag), "c0", id, cand[r.IntN(len(cand))], c14Fill(r, size)})
 	}
 	for _, f := range raws {
-		dir := filepath.Join(cl.roots[f.node], cluster.USERCOLSDIR, f.user, f.coll, f.shard)
+		dir := filepath.Join(c14ShardRoot(cl.roots[f.node]), cluster.USERCOLSDIR, f.user, f.coll, f.shard)
 		if err := os.MkdirAll(dir, 0755); err != nil {
 			return res, err
 		}
